@@ -22,6 +22,7 @@ TRUSTED_BASE = [
 ASSUMPTIONS = [
     "input bytes are < 256 (C++ char); reader positions are modelled as suffixes of the immutable input, mStartPos as the suffix at the first member",
     "documents of the theorems: every value the reference decoder accepts whose maps (at every depth) have keys of the supported kinds (string, integer, float, double, timestamp 32/64/96), pairwise different under the library's key equality; timestamp 96 is read in the library's field order (known finding F08 of C06/C07)",
+    "guarded requests (array item t,(,item,): the DRIVER wraps the item in try / catch (SerializationException of code OutOfRange); no library code does since 9e55af6, M02 fixed): the model and the independent evaluation catch every OutOfRange, as a C++ catch does; the Coq specification's ATry catches only the exhaustion of the array the request is made on, so histories in which something raised further inside is caught are outside T_C03_mp_refines (the specification ends in the error) and are compared implementation vs model vs independent evaluation only",
     "requests from inside a VisitKeys callback (history item E: the i-th action under the i-th visited key, what SerializeMapImpl does): the callback gets a copy of the visited key (d346324; known finding M01, fixed), so the request is the ordinary keyed one; NaN keys are inside the theorem and the judged domain",
     "the reader's mCloseScopeFailed flag (8d03f7f) is observed directly for kinds m, s (IsCloseScopeFailed() after the root scope is gone) and through MsgPackReadRootScope::Finalize() for kinds M, S, called after an error-free history as LoadObject does; after an exception the flag is not observed (LoadObject does not call Finalize() then)",
     "request keys are passed as std::string, uint64_t, int64_t, float, double or CBinTimestamp; targets are the ReadValue overloads (bool, char, (u)int8..64, nullptr_t, float, double, string_view, CBinTimestamp); container targets of the archive layer (vector, map, tuple, classes) reach the scopes through exactly these calls but are not themselves part of this check (C18/C17 own the archive layer)",
@@ -289,7 +290,7 @@ class Eval:
         self.pol = pol
         self.toks = []
         self.partial = False     # an array / byte-array child was left with elements unread (class of F14)
-        self.nested_range = False   # an OutOfRange raised INSIDE a guarded request (not the array's own exhaustion): class of M02
+        self.nested_range = False   # a try item caught an OutOfRange raised INSIDE its request: outside the Coq specification of ATry
 
     def lookup(self, kvs, key):
         for k, v in kvs:
@@ -410,6 +411,11 @@ class Eval:
 
     def arr(self, vs, items):
         vs = list(vs)
+        self.run_arr(vs, items)
+        return vs
+
+    def run_arr(self, vs, items):
+        """the items on the elements vs (consumed in place)"""
         for nd in items:
             k = nd["k"]
             if k == "e":
@@ -418,17 +424,17 @@ class Eval:
             if k == "x":
                 raise Stop(nd["tg"])
             if k == "t":
-                # try { item } catch (OutOfRange): the property = only the array's own "no more items" is caught
-                inner = nd["body"][0]
-                if not vs and inner["k"] in "goab":
-                    self.toks.append("C")
-                    continue
+                # a caller's try { item } catch (OutOfRange) { }: whatever raised it; the scopes in between have been left
+                # (the element they stood for is consumed), the observations made so far stay
+                own = not vs and nd["body"][0]["k"] in "goab"
                 try:
-                    vs = self.arr(vs, [inner])
+                    self.run_arr(vs, nd["body"][:1])
                 except Stop as st:
-                    if st.cat == "R":
-                        self.nested_range = True
-                    raise
+                    if st.cat != "R":
+                        raise
+                    if not own:
+                        self.nested_range = True    # the Coq specification (ATry) catches the array's own exhaustion only
+                    self.toks.append("C")
                 continue
             if not vs:
                 raise Stop("R")
@@ -462,7 +468,6 @@ class Eval:
                     self.toks.append("n")
             else:
                 raise ValueError(k)
-        return vs
 
 
 def expected(line):
@@ -539,22 +544,8 @@ def same(a, b, line=None):
     return False
 
 
-# known finding M02: SerializeArray(std::tuple) catches EVERY OutOfRange raised while its components load — also the one a
-# nested fixed-size array raises for a count mismatch (or anything else further inside) — and, under the Skip policy, goes on
-# (under Throw it reports MismatchedTypes "array shorter than the tuple").  The specification (MpScopeSpec.v, ATry) lets a
-# guarded request catch only the array's own "no more items".  Class: an OutOfRange raised inside a guarded request other than
-# the exhaustion of the array the request is made on.  Excused only while listed as `known` (the built-in entry stands in until
-# the coordinator has recorded it).
-M02 = dict(status="known", property="C03", id="M02", driver=DRIVER,
-           case="ahist m SS 92910105 t,(,a,(,g:s32,e,x:R,),),g:s32,e", implementation="(,(,T+1,E1,C,T+5,E1,) END 4 ERR:P CF0",
-           what="try { component } catch (OutOfRange) of the tuple loader also swallows an OutOfRange raised INSIDE the component "
-                "(e.g. the count mismatch of a nested std::array): the load goes on under Skip / reports MismatchedTypes under Throw. "
-                "Class: OutOfRange raised inside a guarded request other than the exhaustion of the array itself")
-ACTIVE_KNOWN = set()
-
-
 def judge(line, impl):
-    """HOLD / FAIL / KNOWN / UNKNOWN for an implementation answer, by the independent evaluation.
+    """HOLD / FAIL / UNKNOWN for an implementation answer, by the independent evaluation.
     (F14 and F17 are repaired: a partly-read array / byte-array child is no excuse any more.)"""
     try:
         exp, ev = expected(line)
@@ -572,8 +563,6 @@ def judge(line, impl):
         return "UNKNOWN", "data after the document is ill-formed"
     if impl == exp:
         return "HOLD", "as the association-list evaluation"
-    if ev.nested_range and "M02" in ACTIVE_KNOWN:
-        return "KNOWN", "class of known finding M02 (OutOfRange from inside a guarded request is swallowed); the association-list evaluation expects: %s" % exp
     return "FAIL", "the association-list evaluation expects: %s" % exp
 
 
@@ -931,7 +920,9 @@ def spec_line(line):
 
 
 def inside_spec(line):
-    """not in the class of M02 (there the specification reports an error the model, like the code, swallows)"""
+    """no try item caught an OutOfRange raised inside its request: the Coq specification's guarded request (ATry) catches
+    the array's own exhaustion only (what T_C03_mp_refines covers: there the specification reports the error); a C++
+    try/catch — the driver's, and the model's — catches every OutOfRange"""
     try:
         _, ev = expected(line)
         return not ev.nested_range
@@ -960,12 +951,7 @@ def spec_vs_model(line, m, sp):
 
 def known_entries(vlib):
     kn = [k for k in vlib.load_known("C03") if k.get("driver", DRIVER) == DRIVER]
-    if not any(k.get("id") == "M02" for k in kn):
-        kn.append(M02)
-    kn = [k for k in kn if k.get("status") == "known"]
-    ACTIVE_KNOWN.clear()
-    ACTIVE_KNOWN.update(k["id"] for k in kn)
-    return kn
+    return [k for k in kn if k.get("status") == "known"]
 
 
 def run(ctx, vlib):
@@ -1053,7 +1039,6 @@ def run(ctx, vlib):
 
 def replay(rp, vlib):
     impl, model = drivers(vlib)
-    known_entries(vlib)
     line = rp["case"]
     a = vlib.run_driver(impl, [line], jobs=1)[0]
     b = vlib.run_driver(model, [line], jobs=1)[0]
